@@ -18,8 +18,9 @@
               header read fails at EOF (CorruptedDataError at the end position)                   readHdr → atEof
               flush + close .pack; return opos, index       (commit lock still held)
     pack():   with _files.write_lock(): with _lock:
-                  _files.empty(); _file.close(); rename Data.fs → Data.fs.old                     swapBegin
-                  rename Data.fs.pack → Data.fs; reopen; _initIndex(index); _pos := opos          swapEnd
+                  _files.empty(); _file.close(); link Data.fs → Data.fs.old (rename if no links)  swapBegin
+                  os.replace Data.fs.pack → Data.fs; reopen; _initIndex(index); _pos := opos      swapEnd
+                  (either step raising: handler renames .old back if Data.fs is gone, reopens)
               finally: _commit_lock.release()                                                     releaseCommit
                        with _lock: flag := False                                                  clearFlag
     any exception in between: fspack releases the commit lock if it holds it, removes .pack;
@@ -60,8 +61,8 @@ inductive PPhase where
   | copyingBody   -- commit lock released, copying that transaction
   | bodyCopied    -- copied; about to re-acquire the commit lock
   | atEof         -- holding the commit lock, header read hit EOF; .pack flushed and closed
-  | midSwap       -- pool write lock + _lock held: pool emptied, file closed, Data.fs renamed to .old
-  | swapped       -- .pack renamed to Data.fs, reopened, index and _pos installed
+  | midSwap       -- pool write lock + _lock held: pool emptied, file closed, .old named
+  | swapped       -- .pack moved over Data.fs, reopened, index and _pos installed
   | released      -- commit lock released (or the pack was a no-op)
   | done          -- flag cleared
 deriving DecidableEq, Repr
@@ -96,7 +97,6 @@ structure State where
   pool       : List Nat := []              -- generations of the pooled read handles
   out        : List Nat := []              -- generations of the handles handed out to readers
   badRead    : Bool := false               -- a reader used the current index with a handle of another file
-  broken     : Bool := false               -- main file handle closed and Data.fs missing
 deriving DecidableEq, Repr
 
 def init (old : List Tid) : State :=
@@ -122,9 +122,8 @@ def PPhase.canFail : PPhase → Bool
   | _ => false
 
 /-- One atomic action.  `none` = the action is not enabled (the thread blocks, or the code cannot
-    be at that point).  A storage whose swap failed between the renames (`broken`) does nothing. -/
+    be at that point). -/
 def step (s : State) (a : Act) : Option State :=
-  if s.broken then none else
   match a with
   | .begin t =>
     if s.commitLock = none ∧ (∀ u ∈ s.hist, u < t) then
@@ -198,8 +197,7 @@ def step (s : State) (a : Act) : Option State :=
   | .packFail =>
     if s.phase.canFail then
       some { s with phase := .idle, packFlag := false,
-                    commitLock := if s.commitLock = some .packer then none else s.commitLock,
-                    broken := s.phase = .midSwap }
+                    commitLock := if s.commitLock = some .packer then none else s.commitLock }
     else none
   | .readerGet =>                         -- blocked while the pool write lock is held
     if s.phase = .midSwap then none
